@@ -320,6 +320,8 @@ M('F33R', 'src/xdoctest/static_analysis.py', """                with tokenize.op
                     source = file_.read()""", ['C08'], 'F33 repair reverted: a file that is not utf-8 is handed on as bytes')
 M('F34R', 'src/xdoctest/runner.py', """                    if re.match(r'\\s*from\\s+[\\w.]+\\s+import\\s+\\*', line):""", """                    if ' import *' in line:""", ['C19'], "F34 repair reverted: every line mentioning ' import *' is dropped from the dump")
 M('F35R', 'src/xdoctest/directive.py', """    for match in re.finditer(r',|\\(|\\)|(?<![,\\s])\\s+(?=[+-])', optstr):""", """    for match in re.finditer(r',|\\(|\\)', optstr):""", ['C04', 'C20'], 'F35 repair reverted: options separated by blanks only are one unknown directive')
+M('F37R', 'src/xdoctest/parser.py', """        line_iter = enumerate(utils.util_str.split_lf_lines(string))""", """        line_iter = enumerate(string.splitlines())""", ['C13', 'C01', 'C18'], 'F37 repair reverted (parser): docstring lines are split at form feeds and unicode separators too')
+M('F37bR', 'src/xdoctest/doctest_part.py', """        part_lines = utils.util_str.split_lf_lines(src_text)""", """        part_lines = src_text.splitlines()""", ['C18'], 'F37 repair reverted (display): a source line holding a separator character is shown as two lines')
 M('F17R', 'src/xdoctest/doctest_example.py', """                part_directive = None
                 try:
                     try:
